@@ -149,6 +149,5 @@ package http_api
 //@   ensures[a-handler] result != nil
 //@   modifies
 //@   nochan
-// CompressHandler$1 (the closure that picks gzip / deflate from Accept-Encoding and wraps the writer) has NO contract: its two `defer gw.Close()`
-// sit inside a switch inside a loop (conditional defers: outside the engine's subset, `contract-binds` fails). What it builds is verified above
-// (compressResponseWriter.Header / WriteHeader / Write).
+// CompressHandler$1 (the closure that picks gzip / deflate from Accept-Encoding and wraps the writer): zz_contracts_r7_verif.go (round 7; its two
+// `defer gw.Close()` sit inside a switch inside a loop - conditional defers, supported by the engine since then).
